@@ -251,6 +251,20 @@ pub fn enrich(c: &mut Choices, doc: &mut Document) -> ExtStats {
                         a.directives.push(tag(c));
                     }
                 }
+                if c.bool(16) {
+                    // several applications of the repeatable directive: their relative order is observable
+                    f.directives.push(tag(c));
+                    if c.bool(64) {
+                        f.directives.insert(0, tag(c));
+                    }
+                }
+            }
+        }
+        if let Definition::Directive(dd) = d {
+            for a in dd.args.iter_mut() {
+                if c.bool(24) {
+                    a.directives.push(tag(c));
+                }
             }
         }
     }
